@@ -163,10 +163,15 @@ CLAIMS.update({
                 "first branch of an else-if chain that holds, nothing otherwise; cleared after every row; modulo "
                 "update_conclusion's de-duplication, which has its own contract), with ElseIf._evaluate__ re-proved with the "
                 "extra clause S2 (operand flags and operand conclusion sets at each yield) that Alternative relies on.",
-                note="level other: a known finding is recorded (result cache on: a refined alternative replayed from the else-if "
-                     "cache loses its conclusion); Next / Union and the application of the selected conclusions by the descriptor "
+                note="level other: part bounded. The de-duplication of conclusions that do not mention every variable (record per "
+                     "set of conclusions, reset per evaluation, retraction when a refinement replaces the selection: contracts "
+                     "UpdateConclusion, SelectorReset, RetractConclusion, ExceptIfEval's retract clauses) is proved function by "
+                     "function; that these pieces add up to 'each conclusion drawn once per binding of its variables' over a "
+                     "whole evaluation, the behaviour with the result cache on (the else-if never replays a selector operand: "
+                     "proved; the rest: bounded), Next / Union and the application of the selected conclusions by the descriptor "
                      "(Add / Set, QueryObjectDescriptor._evaluate_ in rule mode) are covered by the bounded rule-tree stand-ins only "
-                     "(random trees over one and two variables against a recursive reference reading); assumption RT"),
+                     "(random trees over one and two variables against a recursive reference reading, evaluated twice; the six "
+                     "defects they found were repaired: ae7a143, 0fc64a0, 7ccd92c, 76dd8f9, 1427248 and earlier ones); assumption RT"),
     'C14': dict(level='other', text="Function contracts of the registry mechanism, each proved from the current source: symbol(cls) "
                 "installs hybrid_new as __new__ (and nothing else) with the class's own __new__ or object.__new__ as allocator; "
                 "hybrid_new registers nothing and allocates nothing in symbolic mode and calls "
@@ -305,7 +310,11 @@ ORACLES = {
             _oracle('rule trees over two variables whose conclusions mention different subsets of the variables (result sets; a '
                     'user-made instance of the concluded type is in the registry), cache off', 200, 4000, kind='rdrtree', nvars=2,
                     rules=4, depth=2, n=3, subset=True, caching=False),
-            _oracle('the same, result cache on', 150, 3000, kind='rdrtree', nvars=2, rules=4, depth=2, n=3, subset=True)],
+            _oracle('the same, result cache on', 150, 3000, kind='rdrtree', nvars=2, rules=4, depth=2, n=3, subset=True),
+            _oracle('a selection that a refinement further up replaces: second refinement (with an alternative) whose conclusions '
+                    'mention one variable only, first refinement over the other variable', 150, 2000, kind='rdrtree', nvars=2, n=3,
+                    overridden=True),
+            _oracle('the same, result cache off', 100, 1500, kind='rdrtree', nvars=2, n=3, overridden=True, caching=False)],
     'C14': [_oracle('registry histories: concrete / symbolic construction, clearing, no-domain queries', 300, 4000, kind='registry'),
             _oracle('registry histories without clearing, 16 steps', 100, 2000, kind='registry', clear=False, steps=16)],
     'C13': [_oracle('predicate form vs explicit query, mixed-type domains, positional and keyword fields', 250, 4000, kind='predform', allow_empty=True)],
@@ -342,6 +351,8 @@ ORACLES = {
     'C19': [_oracle('falsy attribute values as operands', 200, 3000, nvars=1, depth=2, falsy=True, neg=True, nested_neg=True),
             _oracle('falsy / None values as selected outputs', 100, 1500, kind='select', single_attr=True),
             _oracle('an expression object used as a condition, then as an operand', 100, 1500, kind='reuse'),
+            _oracle('one expression that is a selected output AND a condition (either operand of or_ / and_) in the same query, '
+                    'falsy data, evaluated twice', 150, 2000, kind='reuse', both_roles=True),
             _oracle('flatten over collections with falsy elements, parent selected', 60, 600, kind='flatten', with_cond=False,
                     select_parent=True, falsy=True, n=4),
             _oracle('flatten over collections with falsy elements, element only', 60, 600, kind='flatten', with_cond=False,
@@ -356,6 +367,10 @@ def standins(prop, tier):
                     # thorough: five times the listed number of random cases per family, within a 15 minute budget each
                     'args': {'family': o['family'], 'label': o['label'], 'cases': o['cases'][0] if tier == 'quick' else 5 * o['cases'][1],
                              'budget_s': 60 if tier == 'quick' else 900}, 'timeout': 1200})
+    if prop == 'C12':
+        out.append({'name': 'C12_retract', 'label': 'SeenSet.add / discard / check, exhaustive',
+                    'bound': 'exhaustive: up to 3 (quick) / 4 (thorough) additions from a pool of 6 constraint objects, one discard, '
+                             '5 lookups', 'args': {'max_adds': 3 if tier == 'quick' else 4}, 'timeout': 600})
     if prop == 'C20':
         out.append({'name': 'C20_cache', 'label': 'IndexedCache insert/check/retrieve, exhaustive',
                     'bound': 'exhaustive: 2 keys (quick) / 3 keys (thorough), alphabet 2, <= 3 insertions (empty binding = flat '
